@@ -150,3 +150,106 @@ Lemma documented_order :
        "XmlPeriod"; "QName"; "str"]%string
   = [0; 1; 2; 3; 4; 8; 9; 10; 11; 12; 13; 14].
 Proof. vm_compute. reflexivity. Qed.
+
+(* ---- against the documented order of the specification --------------------------- *)
+From XV Require Import Spec.XsdPrims.
+Open Scope Z_scope.
+
+Definition name_key (n : str) : Z := sort_key (TName n).
+
+Fixpoint strictly_increasing (l : list Z) : bool :=
+  match l with
+  | a :: ((b :: _) as r) => (a <? b) && strictly_increasing r
+  | _ => true
+  end.
+
+Lemma documented_keys_increasing : strictly_increasing (map name_key documented_priority) = true.
+Proof. vm_compute. reflexivity. Qed.
+
+Lemma strictly_increasing_forall a l :
+  strictly_increasing (a :: l) = true -> Forall (fun b => a < b) l /\ strictly_increasing l = true.
+Proof.
+  revert a; induction l as [|b r IH]; intros a H; [split; [constructor|reflexivity]|].
+  cbn [strictly_increasing] in H. apply andb_true_iff in H as [Hab Hr]. apply Z.ltb_lt in Hab.
+  destruct (IH b Hr) as [Fb Sr]. split; [|exact Hr]. constructor; [exact Hab|].
+  eapply Forall_impl; [|exact Fb]. cbn. intros; lia.
+Qed.
+
+Section Documented.
+  Context {V : Type}.
+  Variable accepts : str -> option V.
+
+  (* the choice of the specification: an accepting candidate of minimal key *)
+  Lemma choose_some order cands v :
+    strictly_increasing (map name_key order) = true ->
+    choose_by_priority order cands accepts = Some v ->
+    exists t, In t order /\ existsb (str_eqb t) cands = true /\ accepts t = Some v
+              /\ forall t', In t' order -> existsb (str_eqb t') cands = true -> accepts t' <> None ->
+                            name_key t <= name_key t'.
+  Proof.
+    induction order as [|t r IH]; intros S H; [discriminate|].
+    cbn [map] in S. destruct (strictly_increasing_forall _ _ S) as [Ft Sr].
+    cbn [choose_by_priority] in H.
+    destruct (existsb (str_eqb t) cands) eqn:Ec; [destruct (accepts t) eqn:Ea|].
+    - inversion H; subst. exists t. repeat split; [left; reflexivity|exact Ec|exact Ea|].
+      intros t' [<-|Ht'] _ _; [lia|]. rewrite Forall_forall in Ft.
+      specialize (Ft (name_key t') (in_map name_key r t' Ht')). lia.
+    - destruct (IH Sr H) as [x [Hx [Hc [Ha Hm]]]]. exists x. repeat split; [right; exact Hx|exact Hc|exact Ha|].
+      intros t' [<-|Ht'] Hc' Ha'; [congruence|apply Hm; assumption].
+    - destruct (IH Sr H) as [x [Hx [Hc [Ha Hm]]]]. exists x. repeat split; [right; exact Hx|exact Hc|exact Ha|].
+      intros t' [<-|Ht'] Hc' Ha'; [congruence|apply Hm; assumption].
+  Qed.
+
+  Lemma choose_none order cands :
+    choose_by_priority order cands accepts = None ->
+    forall t, In t order -> existsb (str_eqb t) cands = true -> accepts t = None.
+  Proof.
+    induction order as [|x r IH]; intros H t Ht Hc; [destruct Ht|].
+    cbn [choose_by_priority] in H. destruct Ht as [<-|Ht].
+    - rewrite Hc in H. destruct (accepts x); [discriminate|reflexivity].
+    - destruct (existsb (str_eqb x) cands); [destruct (accepts x); [discriminate|]|]; apply IH; assumption.
+  Qed.
+
+  Lemma increasing_injective order a b :
+    strictly_increasing (map name_key order) = true ->
+    In a order -> In b order -> name_key a = name_key b -> a = b.
+  Proof.
+    induction order as [|t r IH]; intros S Ha Hb E; [destruct Ha|].
+    cbn [map] in S. destruct (strictly_increasing_forall _ _ S) as [Ft Sr]. rewrite Forall_forall in Ft.
+    destruct Ha as [<-|Ha], Hb as [<-|Hb]; try reflexivity.
+    - specialize (Ft _ (in_map name_key r b Hb)). lia.
+    - specialize (Ft _ (in_map name_key r a Ha)). lia.
+    - apply IH; assumption.
+  Qed.
+End Documented.
+
+(* candidates drawn from the documented types: sorting by the table and taking the
+   first converter that accepts is exactly the documented choice *)
+Theorem deserialize_documented {V} (conv : pytype -> str -> option V) s (names : list str) :
+  (forall n, In n names -> In n documented_priority) ->
+  option_map snd (deserialize_gen conv s (sort_types (map TName names)))
+  = choose_by_priority documented_priority names (fun n => conv (TName n) s).
+Proof.
+  intros Hdoc. set (acc := fun n => conv (TName n) s).
+  pose proof documented_keys_increasing as S.
+  assert (Hex : forall n, In n names -> existsb (str_eqb n) names = true).
+  { intros n Hn. apply existsb_exists. exists n. split; [exact Hn|apply str_eqb_refl]. }
+  assert (Hex' : forall n, existsb (str_eqb n) names = true -> In n names).
+  { intros n Hn. apply existsb_exists in Hn as [x [Hx E]]. apply str_eqb_eq in E. subst. exact Hx. }
+  destruct (deserialize_gen conv s (sort_types (map TName names))) as [[t v]|] eqn:D.
+  - destruct (deserialize_priority conv s _ t v D) as [Hin [Hc Hmin]].
+    apply in_map_iff in Hin as [n [<- Hn]]. cbn [option_map snd].
+    destruct (choose_by_priority documented_priority names acc) as [v'|] eqn:C.
+    + destruct (choose_some acc _ _ _ S C) as [x [Hx [Hxc [Hxa Hxm]]]].
+      assert (K1 : name_key n <= name_key x).
+      { apply (Hmin (TName x)); [apply in_map, Hex', Hxc|]. unfold acc in Hxa. congruence. }
+      assert (K2 : name_key x <= name_key n).
+      { apply Hxm; [apply Hdoc, Hn|apply Hex, Hn|]. unfold acc. congruence. }
+      assert (x = n) by (apply (increasing_injective documented_priority); [exact S|exact Hx|apply Hdoc, Hn|unfold name_key in *; lia]).
+      subst x. unfold acc in Hxa. congruence.
+    + pose proof (choose_none acc _ _ C n (Hdoc n Hn) (Hex n Hn)) as X. unfold acc in X. congruence.
+  - cbn [option_map]. rewrite deserialize_sorted_none in D.
+    destruct (choose_by_priority documented_priority names acc) as [v'|] eqn:C; [|reflexivity].
+    destruct (choose_some acc _ _ _ S C) as [x [Hx [Hxc [Hxa _]]]].
+    specialize (D (TName x) (in_map TName names x (Hex' x Hxc))). unfold acc in Hxa. congruence.
+Qed.
